@@ -6,7 +6,7 @@ arrays of every element type, unions via first member and designator, unknown bo
 constants).  The same text initialises `static T s = ...;` and `T a = ...;` in a function entered after dirty_stack().
 Monitor: member-wise dump of both instances (+ raw bytes of the static one when it holds no pointers) vs gcc == clang,
 and static vs automatic inside the chibicc run."""
-import os, random
+import os, random, re
 from lib import core, cint, ctype
 from lib.ctype import Scalar, Array, Agg
 
@@ -255,7 +255,22 @@ class IG:
             if ps:
                 self.feats.add('union-designator')
                 p, t, b, _u = r.choice(ps)
-                return '{%s = %s}' % (p, self.scalar(t.s, b) if isinstance(t, Scalar) else self.init(t))
+                items = ['%s = %s' % (p, self.scalar(t.s, b) if isinstance(t, Scalar) else self.init(t))]
+
+                def head(q):
+                    m = re.match(r'\.\w+', q)
+                    return m.group(0) if m else q
+                sib = [q for q in ps if q[0] != p and head(q[0]) == head(p) and q[3] == _u and not q[0].startswith(p) and not p.startswith(q[0])]
+                if sib and r.random() < 0.5:
+                    # further designators into the member already chosen (another one would re-initialise the union)
+                    self.feats.add('union-designator-list')
+                    for (p2, t2, b2, _u2) in r.sample(sib, min(len(sib), r.randrange(1, 3))):
+                        items.append('%s = %s' % (p2, self.scalar(t2.s, b2) if isinstance(t2, Scalar) else self.init(t2)))
+                tail = ''
+                if r.random() < 0.4:
+                    self.feats.add('union-designator-trailing-comma')
+                    tail = ','
+                return '{%s%s}' % (', '.join(items), tail)
         first = ms[0]
         if first.bits is not None:
             return '{%s}' % self.scalar(first.ty.s, first.bits)
